@@ -32,6 +32,13 @@ type outerT struct {
 	X any     `json:"x"`
 }
 
+// taggedT: a struct whose schema comes from its tags (FromStruct / FromStructPtr).
+type taggedT struct {
+	Name string  `json:"name" gozod:"required,min=2"`
+	Age  int     `json:"age" gozod:"min=18"`
+	Nick *string `json:"nick" gozod:"min=3"`
+}
+
 func sampleFunc() {}
 
 // strFmt: a string-format schema (embedded *ZodString): bare / with a string check.
@@ -60,6 +67,7 @@ func gentries2() []gentry {
 		return gozod.Struct[outerT](core.StructSchema{"a": gozod.Int().Min(10), "i": in(), "x": in()})
 	}
 	fnAny := any(sampleFunc)
+	nickShort, nickOK := "xy", "nick"
 	es := []gentry{
 		{"bigint", func() any { return gozod.BigInt() }, func() any { return gozod.BigInt() }, []any{big.NewInt(50), big.NewInt(5)}, big.NewInt(42)},
 		{"complex", func() any { return gozod.Complex128() }, func() any { return gozod.Complex128() }, []any{complex(1, 2), complex(0, 0)}, complex(3, 4)},
@@ -77,6 +85,12 @@ func gentries2() []gentry {
 		}, func() any {
 			return gozod.StructPtr[pt](core.StructSchema{"a": gozod.Int().Min(10), "b": gozod.String().Optional()})
 		}, []any{pt{50, "x"}, pt{5, "x"}, pt{}, map[string]any{"a": 50, "b": "x"}}, pt{42, "d"}},
+		{"fromstruct", func() any { return gozod.FromStruct[taggedT]() }, func() any { return gozod.FromStruct[taggedT]() },
+			[]any{taggedT{"bob", 20, nil}, taggedT{"b", 20, nil}, taggedT{"bob", 5, &nickShort}, taggedT{"bob", 20, &nickOK}, taggedT{},
+				map[string]any{"name": "bob", "age": 20}, map[string]any{"name": "b"}, map[string]any{"name": "bob", "age": "x"}}, taggedT{"dflt", 30, nil}},
+		{"fromstructptr", func() any { return gozod.FromStructPtr[taggedT]() }, func() any { return gozod.FromStructPtr[taggedT]() },
+			[]any{taggedT{"bob", 20, nil}, taggedT{"b", 20, nil}, taggedT{"bob", 5, &nickShort}, taggedT{},
+				map[string]any{"name": "bob", "age": 20}, map[string]any{"name": "b"}}, taggedT{"dflt", 30, nil}},
 		{"structnested", nested, nested, []any{outerT{A: 50, I: &innerT{3}, X: innerT{4}}, outerT{A: 50}, outerT{A: 50, I: &innerT{3}}, outerT{A: 50, X: innerT{-1}},
 			outerT{A: 5, I: &innerT{3}, X: "str"}, map[string]any{"a": 50, "i": map[string]any{"n": 3}, "x": map[string]any{"n": 4}}}, outerT{A: 42, I: &innerT{1}, X: innerT{2}}},
 		{"tuple", func() any { return gozod.Tuple(gozod.Int().Min(10), gozod.String()) }, func() any { return gozod.Tuple(gozod.Int().Min(10), gozod.String()) },
